@@ -157,8 +157,8 @@ Definition step06 (s : s06) (e : ev) : option s06 :=
   | EDropBegin => Some (mk06 (q_main s) (q_limbo s) (q_lazy s) (q_idle s) (q_run s) (q_first s) (q_lazyon s) true)
   | EDropEnd => Some (mk06 (q_main s) (q_limbo s) (q_lazy s) (q_idle s) (q_run s) (q_first s) (q_lazyon s) false)
   | ESub QMain u false => Some (mk06 (q_main s ++ [u]) (q_limbo s) (q_lazy s) (q_idle s) (q_run s) (q_first s) (q_lazyon s) (q_tear s))
-  | ESub QLazy u _ => Some (mk06 (q_main s) (q_limbo s) (q_lazy s ++ [u]) (q_idle s) (q_run s) (q_first s) (q_lazyon s) (q_tear s))
-  | ESub QIdle u _ => Some (mk06 (q_main s) (q_limbo s) (q_lazy s) (q_idle s ++ [u]) (q_run s) (q_first s) (q_lazyon s) (q_tear s))
+  | ESub QLazy u false => Some (mk06 (q_main s) (q_limbo s) (q_lazy s ++ [u]) (q_idle s) (q_run s) (q_first s) (q_lazyon s) (q_tear s))
+  | ESub QIdle u false => Some (mk06 (q_main s) (q_limbo s) (q_lazy s) (q_idle s ++ [u]) (q_run s) (q_first s) (q_lazyon s) (q_tear s))
   | ERunBegin _ idle => Some (mk06 (q_main s) (q_limbo s) (q_lazy s) (q_idle s) (Some idle) true false (q_tear s))
   | ERunRet b =>
       guard (nil_b (q_main s) && nil_b (q_lazy s) && Bool.eqb b (negb (nil_b (q_idle s))))
@@ -190,9 +190,9 @@ Definition step06 (s : s06) (e : ev) : option s06 :=
         match pop_if u (q_main s) with Some r => Some (mk06 r (q_limbo s) (q_lazy s) (q_idle s) (q_run s) (q_first s) (q_lazyon s) (q_tear s)) | None => None end
       else
         match pop_if u (q_limbo s) with Some r => Some (mk06 (q_main s) r (q_lazy s) (q_idle s) (q_run s) (q_first s) (q_lazyon s) (q_tear s)) | None => None end
-  | EDrop u (Some QLazy) _ =>
+  | EDrop u (Some QLazy) false =>
       match pop_if u (q_lazy s) with Some r => Some (mk06 (q_main s) (q_limbo s) r (q_idle s) (q_run s) (q_first s) (q_lazyon s) (q_tear s)) | None => None end
-  | EDrop u (Some QIdle) _ =>
+  | EDrop u (Some QIdle) false =>
       match pop_if u (q_idle s) with Some r => Some (mk06 (q_main s) (q_limbo s) (q_lazy s) r (q_run s) (q_first s) (q_lazyon s) (q_tear s)) | None => None end
   | _ => Some s
   end.
